@@ -110,11 +110,20 @@ func (s *server) Insert(stream grpc.ServerStream) error {
 	}
 }
 
-func (s *server) Query(q *rpc.Query, stream grpc.ServerStream) error {
+func (s *server) Query(q *rpc.Query, stream grpc.ServerStream) (finalErr error) {
 	authorizeErr := s.authorize(stream)
 	if authorizeErr != nil {
 		return authorizeErr
 	}
+
+	defer func() {
+		// Executing a query evaluates the expressions that it contains, some of
+		// which panic on unexpected data. Fail the query rather than the process.
+		p := recover()
+		if p != nil {
+			finalErr = s.log.Errorf("Panic while running query %v: %v", q.SQLString, p)
+		}
+	}()
 
 	source, err := s.db.Query(q.SQLString, q.IsSubQuery, q.SubQueryResults, q.IncludeMemStore)
 	if err != nil {
